@@ -190,9 +190,9 @@ sweep(const std::string &profile, const std::string &out, int shard, int nshards
       if (static_cast<int>(progidx++ % static_cast<uint64_t>(nshards)) != shard) continue;
       C.labels["sweep_programs"]++;
       // base run without preemption gives the step counts
-      (void)run_one(base);
+      const Outcome boc = run_one(base);
       uint32_t len[3] = {0, 0, 0};
-      for (int t = 0; t < nthr; t++) len[t] = vsched::stats().lsteps[t] + 6;
+      for (int t = 0; t < nthr; t++) len[t] = boc.lsteps[t] + 6;  // (a preempted run can be a few steps longer: retries)
       std::vector<vsched::Preempt> pts;
       for (int t = 0; t < nthr; t++) {
         for (uint32_t st = 0; st < len[t]; st++) {
@@ -219,6 +219,112 @@ sweep(const std::string &profile, const std::string &out, int shard, int nshards
   return 0;
 }
 
+/*------------------------------------------------------------------------------
+ * focus sweep (--four): four threads; thread 0 runs one transaction with a conversion or an exclusive section,
+ * the three others one plain S / SIX / X transaction each; ALL schedules in which thread 0 - and only thread 0 - is
+ * switched out at most twice (each time in favour of a chosen other thread), once with the three others ready from the
+ * beginning and once with the three others *parked* (they act only when thread 0 is switched out in their favour); in
+ * the parked variant also three times when the last two switches are within three steps of each other. Covers windows
+ * that need several intruders between adjacent instructions of one operation.
+ *----------------------------------------------------------------------------*/
+int
+sweep_four(const std::string &profile, const std::string &out, int shard, int nshards)
+{
+  g_outdir = out;
+  mkdir(out.c_str(), 0777);
+  vsched::Config cfg;
+  int clsmask = 7;
+  if (profile == "C03" || profile == "C09" || profile == "C13") clsmask = 2;
+  if (profile == "C11" || profile == "C12") clsmask = 4;
+  uint64_t progidx = 0, idx = 0;
+  auto run_one = [&](Case &c) {
+    g_curtext = lockcase::to_text(c);
+    g_curindex = idx++;
+    wk::write_file(out + "/cur.case", "# index " + std::to_string(g_curindex) + "\n" + g_curtext);
+    vsched::clear_reports();
+    Outcome oc;
+    lockinterp::run_case(c, cfg, oc, &g_phase);
+    C.evaluations++;
+    C.steps = vsched::total_steps();
+    if (oc.contended || oc.conv_raced) {
+      C.nontrivial++;
+      C.nontrivial_hashes.insert(wk::fnv(g_curtext));
+      if (C.samples.size() < 3) C.samples.push_back(g_curtext);
+    }
+    std::set<std::string> kinds;
+    for (auto &r : vsched::reports()) {
+      C.report_kinds[r.kind]++;
+      if (kinds.insert(r.kind).second && C.viols.size() < 64) {
+        char fn[256];
+        snprintf(fn, sizeof fn, "%s/viol-%lu-%s.case", out.c_str(), g_curindex, r.kind.c_str());
+        wk::write_file(fn, g_curtext);
+        C.viols.push_back({r.kind, r.msg, fn, g_curindex});
+      }
+    }
+    return oc;
+  };
+  static const int focus[] = {2, 3, 4};
+  for (int cls = 0; cls < 3; cls++) {
+    if (((clsmask >> cls) & 1) == 0) continue;
+    for (int f = 0; f < 3; f++) {
+      for (int code = 0; code < 27; code++) {
+       for (int late = 0; late < 2; late++) {
+        if (const char *only = getenv("VERIF_SWEEP4_ONLY")) {  // debugging aid: "f,code,late"
+          int of = 0, oc = 0, ol = 0;
+          if (sscanf(only, "%d,%d,%d", &of, &oc, &ol) == 3 && (of != f || oc != code || ol != late)) continue;
+        }
+        if (static_cast<int>(progidx++ % static_cast<uint64_t>(nshards)) != shard) continue;
+        Case base;
+        base.cls = cls;
+        base.nlocks = 1;
+        base.threads.resize(4);
+        base.threads[0].ops = mini(cls, focus[f]);
+        base.threads[1].ops = mini(cls, code % 3);
+        base.threads[2].ops = mini(cls, (code / 3) % 3);
+        base.threads[3].ops = mini(cls, code / 9);
+        if (late != 0) {
+          // late arrivals: the three others are parked before their request, so each of them acts only when thread 0 is
+          // switched out in its favour (or nobody else can run): thread 0 plus at most three chosen intrusions
+          for (int t = 1; t < 4; t++) base.threads[t].sk = vsched::kParked;
+        }
+        C.labels["sweep_programs"]++;
+        const Outcome boc = run_one(base);
+        const uint32_t len = boc.lsteps[0] + 3;
+        for (uint32_t a = 0; a < len; a++) {
+          for (int ta = 1; ta <= 3; ta++) {
+            Case c1 = base;
+            c1.sched.preempts = {{0, a, ta - 1}};
+            run_one(c1);
+            for (uint32_t b = a + 1; b < len; b++) {
+              for (int tb = 1; tb <= 3; tb++) {
+                Case c2 = base;
+                c2.sched.preempts = {{0, a, ta - 1}, {0, b, tb - 1}};
+                run_one(c2);
+                // a third switch only in the parked variant, within three steps of the second one and in favour of
+                // another thread: two intruders between (nearly) adjacent instructions of one operation
+                for (uint32_t d = b + 1; late != 0 && d < len && d <= b + 3; d++) {
+                  for (int td = 1; td <= 3; td++) {
+                    if (td == tb) continue;
+                    Case c3 = base;
+                    c3.sched.preempts = {{0, a, ta - 1}, {0, b, tb - 1}, {0, d, td - 1}};
+                    run_one(c3);
+                  }
+                }
+              }
+            }
+          }
+        }
+        flush_result();
+       }
+      }
+    }
+  }
+  C.next_index = idx;
+  C.done = true;
+  flush_result();
+  return 0;
+}
+
 }  // namespace
 
 int
@@ -226,7 +332,7 @@ main(int argc, char **argv)
 {
   std::string mode, file, profile = "C01", out;
   int shard = 0, nshards = 1;
-  bool three = false;
+  bool three = false, four = false;
   uint64_t seed = 1, start = 0, count = 100;
   bool trace = false;
   for (int i = 1; i < argc; i++) {
@@ -255,6 +361,8 @@ main(int argc, char **argv)
       mode = "sweep";
     } else if (a == "--three") {
       three = true;
+    } else if (a == "--four") {
+      four = true;
     } else if (a == "--shard") {
       const std::string v = next();
       sscanf(v.c_str(), "%d/%d", &shard, &nshards);
@@ -262,6 +370,7 @@ main(int argc, char **argv)
   }
   vsched::set_fatal_handler(on_fatal);
   if (mode == "replay") return replay(file, trace);
+  if (mode == "sweep" && four) return sweep_four(profile, out, shard, nshards < 1 ? 1 : nshards);
   if (mode == "sweep") return sweep(profile, out, shard, nshards < 1 ? 1 : nshards, three);
   if (mode == "dump") {
     for (uint64_t i = start; i < start + count; i++) {
